@@ -1928,14 +1928,16 @@ def comp_fold(prop, tier, comp, work):
     out = dict(broken=[], units=1, functions=len(rows), cmd=cmd)
     if err:
         out["broken"].append(err); return out
-    f, n, samples = rule_fold(rows, prop)
+    # R-FOLD proper (the textual shape of reducer_t / reduce_t / accumulate_t) was retired: it named local variables and fired on
+    # behaviour-preserving renames. The fold order and the folded elements are proved semantically by E1 (obligations/c08b_fold.cpp).
+    f, n, samples = [], 0, []
     tu2, nn = gen_umbrella(["nmtools/array/view"], work, "umb_view2.cpp")
     rows2, err2, _ = run_nmlint(tu2, filters=["include/nmtools/array/view/sum.hpp", "include/nmtools/array/view/prod.hpp", "include/nmtools/array/view/cumsum.hpp", "include/nmtools/array/view/cumprod.hpp"])
     if err2:
         out["broken"].append(err2); return out
     f2, n2 = rule_redfwd(rows2, prop)
     out["functions"] += len(rows2)
-    out.update(findings=f + f2, instances={"R-FOLD": n, "R-REDFWD": n2}, evaluations=n + n2, distinct_nontrivial=n + n2 - len(f + f2), samples=samples, wall_s=round(time.time() - t0, 2))
+    out.update(findings=f + f2, instances={"R-REDFWD": n2}, evaluations=n + n2, distinct_nontrivial=n + n2 - len(f + f2), samples=samples, wall_s=round(time.time() - t0, 2))
     return out
 
 
